@@ -5747,6 +5747,12 @@ impl BytecodeVM {
                     .ok_or_else(|| JsError::internal_error("Invalid binding name constant"))?;
                 let val = self.get_reg(value).clone();
 
+                // The exports map is not traced: root the value until the namespace object
+                // is built (`export default <expression>` has no binding holding it)
+                if let JsValue::Object(obj) = &val {
+                    interp.exports_guard.guard(obj.clone());
+                }
+
                 // Store in interpreter's exports map
                 interp.exports.insert(
                     export_name_str,
